@@ -644,6 +644,8 @@ pub fn get_value(
             let len = match &function_args.get(1) {
                 Some(len) => match len.parse::<usize>() {
                     Ok(len) => Some(len),
+                    // a whole number too large for the machine is still a length: the rest of the string
+                    _ if !len.is_empty() && len.bytes().all(|b| b.is_ascii_digit()) => Some(usize::MAX),
                     _ => return Variant::empty(VariantType::String),
                 },
                 _ => None,
